@@ -4,7 +4,12 @@
   the abstract "cell" lemma (rational tables `P A B` over `Fin N` with `0 ≤ B ≤ P`, `A ≥ 0`,
   `Σ A = 1`, `Σ P = 1`: the raw product is `(P - A û, û, A)` with `û` the least `(P - B)/A` over
   cells with `A > 0`; the model filters the cells with `A > 0` before the `min` reduction) and its
-  two instances.  No property statements here.
+  two instances.  Since repair abca806 the code evaluates the candidate of a cell as
+  `u0 (r1 + u1) + r0 u1` (three factors: `u0 (r1 + u1)(r2 + u2) + r0 (u1 (r2 + u2) + r1 u2)`), `r = b / a`;
+  the lifting lemmas `prodCand2_lift` / `prodCand3_lift` show that on every cell with a positive joint base
+  rate this IS `(P - B)/A` (no well-formedness needed, only `a0 i ≠ 0`, `a1 j ≠ 0`), so the abstract cell
+  lemma is stated for an arbitrary candidate function that agrees with `(P - B)/A` on those cells.
+  No property statements here.
 -/
 import SLV.Refine.Lift
 import SLV.Refine.MinLemmas
@@ -240,11 +245,11 @@ theorem uhat_eq_one (h : Cell P A B) (hPA : ∀ k, P k = A k) (hB0 : ∀ k, B k 
 
 /-! ### the raw product on lifted cell tables -/
 
-/-- the computation shared by `product2Raw` and `product3Raw` once the three cell tables are built:
-    the joint uncertainty is `reduce(min)` over the cells with base rate `> 0` only -/
-def rawOf {α : Type} [Scalar α] (p a bb : Tab α N) : Opinion α N :=
+/-- the computation shared by `product2Raw` and `product3Raw` once the cell tables are built: the joint
+    uncertainty is `reduce(min)` of the candidates `c k` over the cells with base rate `> 0` only -/
+def rawOf {α : Type} [Scalar α] (p a : Tab α N) (c : Fin N → α) : Opinion α N :=
   let u := Tab.reduceL Scalar.min
-    (((List.finRange N).filter fun k => Scalar.gt a[k] Scalar.zero).map fun k => (p[k] - bb[k]) / a[k])
+    (((List.finRange N).filter fun k => Scalar.gt a[k] Scalar.zero).map c)
     (Tab.nanOf α)
   let b : Tab α N := Vector.ofFn fun k => p[k] - a[k] * u
   ⟨b, u, a⟩
@@ -291,20 +296,22 @@ theorem reduceL_min_fin_spec {ι : Type} (l : List ι) (g : ι → ℚ) (hne : l
         cases e'
         exact ⟨k, by simp [hk], rfl⟩
 
-theorem reduceL_cell (h : Cell P A B) :
+/-- `c` is any candidate function that, on the cells with a positive base rate, evaluates to `(P - B)/A`
+    (the cancelling form of the code before repair abca806: `cand_entry`; the expanded form of the current
+    code: `prodCand2_lift`, `prodCand3_lift`); the other cells are filtered out before `c` is looked at -/
+theorem reduceL_cell (h : Cell P A B) (c : Fin N → XQ f)
+    (hc : ∀ k, 0 < A k → c k = XQ.fin (ucand P A B k)) :
     Tab.reduceL Scalar.min
-        (((List.finRange N).filter fun k => Scalar.gt (liftT A : Tab (XQ f) N)[k] Scalar.zero).map
-          fun k => (XQ.fin (P k) - XQ.fin (B k)) / (XQ.fin (A k) : XQ f))
+        (((List.finRange N).filter fun k => Scalar.gt (liftT A : Tab (XQ f) N)[k] Scalar.zero).map c)
         (Tab.nanOf (XQ f))
       = XQ.fin (uhat P A B) := by
   set L := (List.finRange N).filter fun k => Scalar.gt (liftT A : Tab (XQ f) N)[k] Scalar.zero
     with hL
   have hmem : ∀ k, k ∈ L ↔ 0 < A k := mem_cells_iff A
-  have hmap : (L.map fun k => (XQ.fin (P k) - XQ.fin (B k)) / (XQ.fin (A k) : XQ f))
-      = L.map fun k => (XQ.fin (ucand P A B k) : XQ f) := by
+  have hmap : (L.map c) = L.map fun k => (XQ.fin (ucand P A B k) : XQ f) := by
     apply List.map_congr_left
     intro k hk
-    exact cand_entry k ((hmem k).1 hk)
+    exact hc k ((hmem k).1 hk)
   obtain ⟨k0, hk0, _⟩ := (uhat_spec h).2
   have hne : L ≠ [] := List.ne_nil_of_mem ((hmem k0).2 hk0)
   obtain ⟨m, r1, r2, k1, hk1, r3⟩ :=
@@ -316,15 +323,37 @@ theorem reduceL_cell (h : Cell P A B) :
   · exact ⟨k1, (hmem k1).1 hk1, r3⟩
 
 /-- the abstract cell lemma -/
-theorem rawOf_lift (h : Cell P A B) :
-    rawOf (liftT P : Tab (XQ f) N) (liftT A) (liftT B)
+theorem rawOf_lift (h : Cell P A B) (c : Fin N → XQ f)
+    (hc : ∀ k, 0 < A k → c k = XQ.fin (ucand P A B k)) :
+    rawOf (liftT P : Tab (XQ f) N) (liftT A) c
       = ⟨liftT (bJ P A B), XQ.fin (uhat P A B), liftT A⟩ := by
   unfold rawOf
-  have e := reduceL_cell (f := f) h
+  have e := reduceL_cell (f := f) h c hc
   simp only [liftT_getElem] at e ⊢
   rw [e]
   simp only [XQ.mul_fin, XQ.sub_fin]
   rfl
+
+/-- without any well-formedness: if some cell has a positive base rate and the candidates of those cells are
+    finite, the uncertainty of the raw product is the least of them -/
+theorem rawOf_u_gen (p : Tab (XQ f) N) (A : Fin N → ℚ) (c : Fin N → XQ f) (g : Fin N → ℚ)
+    (hc : ∀ k, 0 < A k → c k = XQ.fin (g k)) (hne : ∃ k, 0 < A k) :
+    ∃ m : ℚ, (rawOf p (liftT A) c).u = XQ.fin m ∧ (∀ k, 0 < A k → m ≤ g k) ∧ ∃ k, 0 < A k ∧ m = g k := by
+  show ∃ m : ℚ, Tab.reduceL Scalar.min
+      (((List.finRange N).filter fun k => Scalar.gt (liftT A : Tab (XQ f) N)[k] Scalar.zero).map c)
+      (Tab.nanOf (XQ f)) = XQ.fin m ∧ _
+  set L := (List.finRange N).filter fun k => Scalar.gt (liftT A : Tab (XQ f) N)[k] Scalar.zero
+    with hL
+  have hmem : ∀ k, k ∈ L ↔ 0 < A k := mem_cells_iff A
+  have hmap : (L.map c) = L.map fun k => (XQ.fin (g k) : XQ f) := by
+    apply List.map_congr_left
+    intro k hk
+    exact hc k ((hmem k).1 hk)
+  obtain ⟨k0, hk0⟩ := hne
+  have hneL : L ≠ [] := List.ne_nil_of_mem ((hmem k0).2 hk0)
+  obtain ⟨m, r1, r2, k1, hk1, r3⟩ := reduceL_min_fin_spec (f := f) L g hneL (Tab.nanOf (XQ f))
+  refine ⟨m, ?_, fun k hk => r2 k ((hmem k).2 hk), k1, (hmem k1).1 hk1, r3⟩
+  rw [hmap, r1]
 
 /-- renormalising a base rate whose sum is exactly 1 changes nothing -/
 theorem normalize_id (h : Cell P A B) :
@@ -382,12 +411,57 @@ theorem cell2 (h0 : WF b0 u0 a0) (h1 : WF b1 u1 a1) :
     rw [sum_outer2 (fun i => b0 i + a0 i * u0) (fun j => b1 j + a1 j * u1), sum_proj h0,
       sum_proj h1, one_mul]
 
+/-- rational value of the expanded candidate of cell `k = (i, j)`: `u0 (b1 j / a1 j + u1) + b0 i / a0 i * u1` -/
+def cand2 (b0 : Fin n0 → ℚ) (u0 : ℚ) (a0 : Fin n0 → ℚ) (b1 : Fin n1 → ℚ) (u1 : ℚ) (a1 : Fin n1 → ℚ)
+    (k : Fin (n0 * n1)) : ℚ :=
+  u0 * (b1 (idx2 k).2 / a1 (idx2 k).2 + u1) + b0 (idx2 k).1 / a0 (idx2 k).1 * u1
+
+/-- every term of the expanded candidate is non-negative as soon as the entries are (no sum condition) -/
+theorem cand2_nonneg (b0 : Fin n0 → ℚ) (u0 : ℚ) (a0 : Fin n0 → ℚ) (b1 : Fin n1 → ℚ) (u1 : ℚ)
+    (a1 : Fin n1 → ℚ) (hb0 : ∀ i, 0 ≤ b0 i) (hu0 : 0 ≤ u0) (ha0 : ∀ i, 0 ≤ a0 i)
+    (hb1 : ∀ j, 0 ≤ b1 j) (hu1 : 0 ≤ u1) (ha1 : ∀ j, 0 ≤ a1 j) (k : Fin (n0 * n1)) :
+    0 ≤ cand2 b0 u0 a0 b1 u1 a1 k := by
+  unfold cand2
+  have r0 := div_nonneg (hb0 (idx2 k).1) (ha0 (idx2 k).1)
+  have r1 := div_nonneg (hb1 (idx2 k).2) (ha1 (idx2 k).2)
+  exact add_nonneg (mul_nonneg hu0 (add_nonneg r1 hu1)) (mul_nonneg r0 hu1)
+
+/-- the model's candidate on lifted rational operands, on a cell whose joint base rate is not zero -/
+theorem prodCand2_fin (b0 : Fin n0 → ℚ) (u0 : ℚ) (a0 : Fin n0 → ℚ) (b1 : Fin n1 → ℚ) (u1 : ℚ)
+    (a1 : Fin n1 → ℚ) (k : Fin (n0 * n1)) (hk : A2 a0 a1 k ≠ 0) :
+    prodCand2 (⟨liftT b0, XQ.fin u0, liftT a0⟩ : Opinion (XQ f) n0) ⟨liftT b1, XQ.fin u1, liftT a1⟩ (idx2 k)
+      = XQ.fin (cand2 b0 u0 a0 b1 u1 a1 k) := by
+  unfold A2 at hk
+  have h0 : a0 (idx2 k).1 ≠ 0 := left_ne_zero_of_mul hk
+  have h1 : a1 (idx2 k).2 ≠ 0 := right_ne_zero_of_mul hk
+  unfold prodCand2 cand2
+  simp only [liftT_getElem, XQ.div_fin _ _ h0, XQ.div_fin _ _ h1, XQ.add_fin, XQ.mul_fin]
+
+/-- the lifting lemma of repair abca806, two factors: on a cell whose joint base rate is not zero the expanded
+    candidate `u0 (r1 + u1) + r0 u1`, `r = b / a`, of the current code is the quotient `(P - B)/A` that the code
+    evaluated before (with cancellation in floating point; in exact arithmetic the two coincide).  No
+    well-formedness is needed: `P2` is the product of the un-normalised projections `b + a u`. -/
+theorem prodCand2_lift (b0 : Fin n0 → ℚ) (u0 : ℚ) (a0 : Fin n0 → ℚ) (b1 : Fin n1 → ℚ) (u1 : ℚ)
+    (a1 : Fin n1 → ℚ) (k : Fin (n0 * n1)) (hk : A2 a0 a1 k ≠ 0) :
+    prodCand2 (⟨liftT b0, XQ.fin u0, liftT a0⟩ : Opinion (XQ f) n0) ⟨liftT b1, XQ.fin u1, liftT a1⟩ (idx2 k)
+      = XQ.fin (ucand (P2 b0 u0 a0 b1 u1 a1) (A2 a0 a1) (B2 b0 b1) k) := by
+  unfold A2 at hk
+  have h0 : a0 (idx2 k).1 ≠ 0 := left_ne_zero_of_mul hk
+  have h1 : a1 (idx2 k).2 ≠ 0 := right_ne_zero_of_mul hk
+  unfold prodCand2
+  simp only [liftT_getElem, XQ.div_fin _ _ h0, XQ.div_fin _ _ h1, XQ.add_fin, XQ.mul_fin]
+  congr 1
+  unfold ucand P2 A2 B2
+  field_simp
+  ring
+
 theorem product2Raw_lift (h0 : WF b0 u0 a0) (h1 : WF b1 u1 a1) :
     product2Raw (⟨liftT b0, XQ.fin u0, liftT a0⟩ : Opinion (XQ f) n0) ⟨liftT b1, XQ.fin u1, liftT a1⟩
       = ⟨liftT (bJ2 b0 u0 a0 b1 u1 a1), XQ.fin (uhat2 b0 u0 a0 b1 u1 a1), liftT (A2 a0 a1)⟩ := by
-  show rawOf (outer2 (SLV.projection _ _ _) (SLV.projection _ _ _)) (outer2 _ _) (outer2 _ _) = _
-  rw [C09_projection h0, C09_projection h1, outer2_lift, outer2_lift, outer2_lift]
-  exact rawOf_lift (cell2 h0 h1)
+  show rawOf (outer2 (SLV.projection _ _ _) (SLV.projection _ _ _)) (outer2 _ _)
+    (fun k => prodCand2 _ _ (idx2 k)) = _
+  rw [C09_projection h0, C09_projection h1, outer2_lift, outer2_lift]
+  exact rawOf_lift (cell2 h0 h1) _ (fun k hk => prodCand2_lift b0 u0 a0 b1 u1 a1 k (ne_of_gt hk))
 
 end two
 
@@ -443,15 +517,72 @@ theorem cell3 (h0 : WF b0 u0 a0) (h1 : WF b1 u1 a1) (h2 : WF b2 u2 a2) :
     rw [sum_outer3 (fun i => b0 i + a0 i * u0) (fun j => b1 j + a1 j * u1)
       (fun l => b2 l + a2 l * u2), sum_proj h0, sum_proj h1, sum_proj h2, one_mul, one_mul]
 
+/-- rational value of the expanded candidate of cell `k = (i, j, l)` -/
+def cand3 (b0 : Fin n0 → ℚ) (u0 : ℚ) (a0 : Fin n0 → ℚ) (b1 : Fin n1 → ℚ) (u1 : ℚ) (a1 : Fin n1 → ℚ)
+    (b2 : Fin n2 → ℚ) (u2 : ℚ) (a2 : Fin n2 → ℚ) (k : Fin (n0 * n1 * n2)) : ℚ :=
+  u0 * (b1 (idx3 k).2.1 / a1 (idx3 k).2.1 + u1) * (b2 (idx3 k).2.2 / a2 (idx3 k).2.2 + u2)
+    + b0 (idx3 k).1 / a0 (idx3 k).1
+      * (u1 * (b2 (idx3 k).2.2 / a2 (idx3 k).2.2 + u2) + b1 (idx3 k).2.1 / a1 (idx3 k).2.1 * u2)
+
+theorem cand3_nonneg (b0 : Fin n0 → ℚ) (u0 : ℚ) (a0 : Fin n0 → ℚ) (b1 : Fin n1 → ℚ) (u1 : ℚ)
+    (a1 : Fin n1 → ℚ) (b2 : Fin n2 → ℚ) (u2 : ℚ) (a2 : Fin n2 → ℚ)
+    (hb0 : ∀ i, 0 ≤ b0 i) (hu0 : 0 ≤ u0) (ha0 : ∀ i, 0 ≤ a0 i)
+    (hb1 : ∀ j, 0 ≤ b1 j) (hu1 : 0 ≤ u1) (ha1 : ∀ j, 0 ≤ a1 j)
+    (hb2 : ∀ l, 0 ≤ b2 l) (hu2 : 0 ≤ u2) (ha2 : ∀ l, 0 ≤ a2 l) (k : Fin (n0 * n1 * n2)) :
+    0 ≤ cand3 b0 u0 a0 b1 u1 a1 b2 u2 a2 k := by
+  unfold cand3
+  have r0 := div_nonneg (hb0 (idx3 k).1) (ha0 (idx3 k).1)
+  have r1 := div_nonneg (hb1 (idx3 k).2.1) (ha1 (idx3 k).2.1)
+  have r2 := div_nonneg (hb2 (idx3 k).2.2) (ha2 (idx3 k).2.2)
+  exact add_nonneg (mul_nonneg (mul_nonneg hu0 (add_nonneg r1 hu1)) (add_nonneg r2 hu2))
+    (mul_nonneg r0 (add_nonneg (mul_nonneg hu1 (add_nonneg r2 hu2)) (mul_nonneg r1 hu2)))
+
+theorem prodCand3_fin (b0 : Fin n0 → ℚ) (u0 : ℚ) (a0 : Fin n0 → ℚ) (b1 : Fin n1 → ℚ) (u1 : ℚ)
+    (a1 : Fin n1 → ℚ) (b2 : Fin n2 → ℚ) (u2 : ℚ) (a2 : Fin n2 → ℚ) (k : Fin (n0 * n1 * n2))
+    (hk : A3 a0 a1 a2 k ≠ 0) :
+    prodCand3 (⟨liftT b0, XQ.fin u0, liftT a0⟩ : Opinion (XQ f) n0) ⟨liftT b1, XQ.fin u1, liftT a1⟩
+        ⟨liftT b2, XQ.fin u2, liftT a2⟩ (idx3 k)
+      = XQ.fin (cand3 b0 u0 a0 b1 u1 a1 b2 u2 a2 k) := by
+  unfold A3 at hk
+  have h01 := left_ne_zero_of_mul hk
+  have h0 : a0 (idx3 k).1 ≠ 0 := left_ne_zero_of_mul h01
+  have h1 : a1 (idx3 k).2.1 ≠ 0 := right_ne_zero_of_mul h01
+  have h2 : a2 (idx3 k).2.2 ≠ 0 := right_ne_zero_of_mul hk
+  unfold prodCand3 cand3
+  simp only [liftT_getElem, XQ.div_fin _ _ h0, XQ.div_fin _ _ h1, XQ.div_fin _ _ h2, XQ.add_fin,
+    XQ.mul_fin]
+
+/-- the lifting lemma of repair abca806, three factors: on a cell whose joint base rate is not zero the
+    expanded candidate `u0 (r1 + u1)(r2 + u2) + r0 (u1 (r2 + u2) + r1 u2)` is `(P - B)/A` -/
+theorem prodCand3_lift (b0 : Fin n0 → ℚ) (u0 : ℚ) (a0 : Fin n0 → ℚ) (b1 : Fin n1 → ℚ) (u1 : ℚ)
+    (a1 : Fin n1 → ℚ) (b2 : Fin n2 → ℚ) (u2 : ℚ) (a2 : Fin n2 → ℚ) (k : Fin (n0 * n1 * n2))
+    (hk : A3 a0 a1 a2 k ≠ 0) :
+    prodCand3 (⟨liftT b0, XQ.fin u0, liftT a0⟩ : Opinion (XQ f) n0) ⟨liftT b1, XQ.fin u1, liftT a1⟩
+        ⟨liftT b2, XQ.fin u2, liftT a2⟩ (idx3 k)
+      = XQ.fin (ucand (P3 b0 u0 a0 b1 u1 a1 b2 u2 a2) (A3 a0 a1 a2) (B3 b0 b1 b2) k) := by
+  unfold A3 at hk
+  have h01 := left_ne_zero_of_mul hk
+  have h0 : a0 (idx3 k).1 ≠ 0 := left_ne_zero_of_mul h01
+  have h1 : a1 (idx3 k).2.1 ≠ 0 := right_ne_zero_of_mul h01
+  have h2 : a2 (idx3 k).2.2 ≠ 0 := right_ne_zero_of_mul hk
+  unfold prodCand3
+  simp only [liftT_getElem, XQ.div_fin _ _ h0, XQ.div_fin _ _ h1, XQ.div_fin _ _ h2, XQ.add_fin,
+    XQ.mul_fin]
+  congr 1
+  unfold ucand P3 A3 B3
+  field_simp
+  ring
+
 theorem product3Raw_lift (h0 : WF b0 u0 a0) (h1 : WF b1 u1 a1) (h2 : WF b2 u2 a2) :
     product3Raw (⟨liftT b0, XQ.fin u0, liftT a0⟩ : Opinion (XQ f) n0) ⟨liftT b1, XQ.fin u1, liftT a1⟩
         ⟨liftT b2, XQ.fin u2, liftT a2⟩
       = ⟨liftT (bJ3 b0 u0 a0 b1 u1 a1 b2 u2 a2), XQ.fin (uhat3 b0 u0 a0 b1 u1 a1 b2 u2 a2),
           liftT (A3 a0 a1 a2)⟩ := by
   show rawOf (outer3 (SLV.projection _ _ _) (SLV.projection _ _ _) (SLV.projection _ _ _))
-    (outer3 _ _ _) (outer3 _ _ _) = _
-  rw [C09_projection h0, C09_projection h1, C09_projection h2, outer3_lift, outer3_lift, outer3_lift]
-  exact rawOf_lift (cell3 h0 h1 h2)
+    (outer3 _ _ _) (fun k => prodCand3 _ _ _ (idx3 k)) = _
+  rw [C09_projection h0, C09_projection h1, C09_projection h2, outer3_lift, outer3_lift]
+  exact rawOf_lift (cell3 h0 h1 h2) _
+    (fun k hk => prodCand3_lift b0 u0 a0 b1 u1 a1 b2 u2 a2 k (ne_of_gt hk))
 
 end three
 
